@@ -6,7 +6,7 @@ are read back with `FitInfoFile(path, 'r')` (a zero-byte file — no record was 
 on open and is read as "no records").
 Model side: driver op `partition` (= `filterOutput` of Model/Partition.lean over EF Rat).
 Histories: 1..3 successive `filter_output` calls on the same input with the SAME output paths
-(explicit or automatic names) and different thresholds / criteria, including later calls that send
+(explicit, automatic, or one explicit + one automatic name) and different thresholds / criteria, including later calls that send
 every source to one side; after EACH call both files must hold exactly the partition for THAT call.
 Property side (independent of the model): every source in exactly one file, input order kept inside
 each file, records equal field by field to the input records, good iff best chi² (per fitted point)
@@ -28,13 +28,15 @@ from . import ef
 PID = 'C18'
 RULE = ('cases = 1..10 sources, each a ranked result (1..4 fits, best chi² finite / +inf / NaN) with a flag vector '
         'holding >= 1 fitted point; one criterion (chi= or cpd=) whose threshold differs from every best value; '
-        'output names explicit or automatic; input as file or as list of FitInfo; 1..3 successive calls re-using the '
+        'output names explicit or automatic, independently for the two files (good explicit + bad automatic and the '
+        'reverse included, file input); input as file or as list of FitInfo; 1..3 successive calls re-using the '
         'same output paths with different thresholds / criteria (histories).  Non-trivial: >= 2 sources. '
         'Distinct = distinct canonical hash of the case')
 REQUIRED_BRANCHES = ['chi', 'cpd', 'auto_names', 'explicit_names', 'input_file', 'input_list', 'all_good', 'all_bad',
                      'mixed', 'empty_output_file', 'best_inf', 'best_nan', 'flags_non_fitted', 'one_source', 'ten_sources',
                      'with_fluxes', 'no_fluxes', 'history', 'rerun_all_good_after_mixed', 'rerun_all_bad_after_mixed',
-                     'rerun_other_criterion', 'rerun_auto_names', 'rerun_explicit_names']
+                     'rerun_other_criterion', 'rerun_auto_names', 'rerun_explicit_names',
+                     'good_explicit_names', 'bad_explicit_names', 'rerun_good_explicit_names', 'rerun_bad_explicit_names']
 ASSUMPTIONS = ['thresholds are kept at least 1e-6 (relative) away from every best chi² / best chi² per point, so rounding of '
                'chi2[0] / n_data cannot change a comparison',
                'every record has at least one fit and n_data >= 1 (the property\'s domain)',
@@ -42,6 +44,8 @@ ASSUMPTIONS = ['thresholds are kept at least 1e-6 (relative) away from every bes
 EXHAUSTIVE = {'quick': False, 'thorough': True}
 N = {'quick': 260, 'thorough': 2500}
 META = ('/models/dir', ['F0', 'F1'], None)
+# how the two output files are named: both automatic (<input>_good / <input>_bad), both explicit, or one of each
+NAME_MODES = ['auto', 'explicit', 'good_explicit', 'bad_explicit']
 
 
 # ----------------------------------------------------------------------------- generation
@@ -105,7 +109,7 @@ def gen_case(rng, nsrc=None, kind=None, names=None, inp=None, want=None, bests=N
         if v is not None:
             break
     inp = inp or rng.choice(['file', 'list'])
-    names = names or ('explicit' if inp == 'list' else rng.choice(['auto', 'explicit']))
+    names = names or ('explicit' if inp == 'list' else rng.choice(NAME_MODES))
     return dict(sources=sources, kind=kind, v=v, names=names, input=inp)
 
 
@@ -141,7 +145,7 @@ def pattern_case(rng, pattern, kind):
         s['chi2'] = [ef.js(c) for c in chi2]
         sources.append(s)
     inp = rng.choice(['file', 'list'])
-    c = dict(sources=sources, kind=kind, v=v, names='explicit' if inp == 'list' else rng.choice(['auto', 'explicit']),
+    c = dict(sources=sources, kind=kind, v=v, names='explicit' if inp == 'list' else rng.choice(NAME_MODES),
              input=inp)
     if rng.random() < 0.5:
         add_history(rng, c, [rng.choice(['all_good', 'all_bad'])])
@@ -164,6 +168,11 @@ def gen_cases(seed, tier):
     yield add_history(r(8), dict(gen_case(r(8), nsrc=4, kind='chi', names='explicit', inp='file', bests=mixed), v=10.), ['all_good', 'all_bad'])
     yield add_history(r(9), dict(gen_case(r(9), nsrc=4, kind='chi', names='explicit', inp='list', bests=mixed), v=10.), ['all_bad', 'all_good'])
     yield add_history(r(10), dict(gen_case(r(10), nsrc=6, kind='cpd', names='explicit', inp='list')), [None, None])
+    # one explicit and one automatic name
+    yield gen_case(r(11), nsrc=4, kind='chi', names='good_explicit', inp='file')
+    yield gen_case(r(12), nsrc=4, kind='cpd', names='bad_explicit', inp='file')
+    yield add_history(r(13), dict(gen_case(r(13), nsrc=4, kind='chi', names='good_explicit', inp='file', bests=mixed), v=10.), ['all_bad', None])
+    yield add_history(r(14), dict(gen_case(r(14), nsrc=4, kind='chi', names='bad_explicit', inp='file', bests=mixed), v=10.), ['all_good', None])
     if tier == 'thorough':
         k = 0
         for n in range(1, 7):
@@ -256,12 +265,14 @@ def property_side(case):
             arg = path
         else:
             arg = infos
-        if case['names'] == 'auto':
-            good_path, bad_path = path + '_good', path + '_bad'
-            kw = {}
-        else:
-            good_path, bad_path = os.path.join(d, 'well.out'), os.path.join(d, 'badly.out')
-            kw = dict(output_good=good_path, output_bad=bad_path)
+        good_path, bad_path = path + '_good', path + '_bad'
+        kw = {}
+        if case['names'] in ('explicit', 'good_explicit'):
+            good_path = os.path.join(d, 'well.out')
+            kw['output_good'] = good_path
+        if case['names'] in ('explicit', 'bad_explicit'):
+            bad_path = os.path.join(d, 'badly.out')
+            kw['output_bad'] = bad_path
         calls = [[case['kind'], case['v']]] + [list(c) for c in case.get('more', [])]
         if len(calls) > 1:
             br.add('history')
@@ -286,7 +297,9 @@ def property_side(case):
             except Exception as e:
                 return False, '%s: reading the outputs back raised %s: %s' % (what, type(e).__name__, e), br, None, None
             if good is None or bad is None:
-                return False, '%s: output file missing (good: %s, bad: %s)' % (what, good is not None, bad is not None), br, None, None
+                return (False, '%s: output file missing: good file %s %s, bad file %s %s; files present: %r'
+                        % (what, good_path, 'exists' if good is not None else 'MISSING', bad_path,
+                           'exists' if bad is not None else 'MISSING', sorted(os.listdir(d))), br, None, None)
             if good == [] or bad == []:
                 br.add('empty_output_file')
             grecs, gmeta = good if good else ([], META)
